@@ -129,6 +129,14 @@ def main():
     # dequantize is affine and increasing in the code: the dequantized values of ascending codes ascend
     dv = np.asarray(deq, np.float64).flatten()
     obs.append({"kind": "mono", "qs": [int(x) for x in np.argsort(dv, kind="stable")], "lo": 0, "hi": len(pts) - 1, "below": 0, "above": 0})
+    # ascending inputs from far below to far above the range, as for 4 and 8 bits: the codes stay inside the (narrow, when symmetric)
+    # 16-bit range and every outlier saturates at its end
+    far = [1e3, 1e6, 2.5e7, 1e12, 1e30, 3e38]
+    mn16, mx16 = (float(F(v["mn"])), float(F(v["mx"]))) if "mn" in v else (-3e-4, 3e-4)
+    xs = np.concatenate([-np.array(far[::-1]), np.linspace(mn16 - 1.0, mx16 + 1.0, 97), np.array(far)]).astype(np.float32).reshape(1, -1)
+    with np.errstate(over="ignore", invalid="ignore"):
+      qs16 = U.uniform_quantize(xs, p)
+    obs.append({"kind": "mono", "qs": [int(b) for b in qs16.flatten()], "lo": lo, "hi": hi, "below": len(far), "above": len(far)})
   # ---- per-channel parameters act only along their own channel (rank 1..4, any quantised dimension)
   rng = np.random.default_rng(args.seed)
   nchan = 60 if args.tier == "quick" else 1500
